@@ -417,7 +417,9 @@ class Engine(object):
             return
         if isinstance(goal, bool):
             goal = z3.BoolVal(goal)
-        self.obligations.append(Obligation(name, self.path.pc, goal, kind, line, note))
+        ob = Obligation(name, self.path.pc, goal, kind, line, note)
+        ob.lengths = list(getattr(self, 'lengths', []))
+        self.obligations.append(ob)
 
     # ---- heap
     def declare_attr(self, attr, sort):
